@@ -9,6 +9,8 @@ package harness
 import (
 	"encoding/json"
 	"fmt"
+	"github.com/trustbloc/sidetree-go/pkg/patch"
+	"github.com/trustbloc/sidetree-go/pkg/versions/1_0/operationparser/patchvalidator"
 	"runtime"
 	"sort"
 	"strings"
@@ -89,7 +91,7 @@ func genC20Calls(t *rapid.T, s *c20Shared, n int) []c20Call {
 	p := s.stack.P
 	var calls []c20Call
 	for i := 0; i < n; i++ {
-		kind := rapid.SampledFrom([]string{"parse", "parse-invalid", "apply-create", "apply-update", "compose", "compose-copy-move", "construct", "transform", "resolve", "process", "vdr-create", "vdr-read", "canonicalize"}).Draw(t, "callKind")
+		kind := rapid.SampledFrom([]string{"parse", "parse-invalid", "apply-create", "apply-update", "compose", "compose-copy-move", "compose-shared-patches", "construct", "transform", "resolve", "process", "vdr-create", "vdr-read", "canonicalize"}).Draw(t, "callKind")
 		origin := rapid.SampledFrom(c20Origins).Draw(t, "origin")
 		switch kind {
 		case "parse", "parse-invalid":
@@ -174,6 +176,26 @@ func genC20Calls(t *rapid.T, s *c20Shared, n int) []c20Call {
 					return fmt.Sprint(v.Accept("ion"), v.Accept("other"))
 				}
 			}})
+		case "compose-shared-patches":
+			// one list of patches, as decoded from a request, applied to several documents by several calls: the patches are
+			// read-only inputs (C12), so sharing them is as good as sharing a component
+			shared, _ := genOpPatches(t, map[string]interface{}{}, true, statsFor("C20"))
+			var lps []patch.Patch
+			if err := json.Unmarshal([]byte(refJCS(shared)), &lps); err != nil {
+				t.Fatalf("harness: %v", err)
+			}
+			for k := rapid.IntRange(3, 6).Draw(t, "sharers"); k > 0; k-- {
+				ld := libDoc(map[string]interface{}{"alsoKnownAs": []interface{}{fmt.Sprintf("https://shared.example/%d/%d", len(calls), k)}})
+				calls = append(calls, c20Call{kind, func() string {
+					s.enter(&s.inCompose)
+					defer s.leave(&s.inCompose)
+					res, err := s.stack.Composer.ApplyPatches(ld, lps)
+					if err != nil {
+						return "ERR:" + err.Error()
+					}
+					return docCanon(res)
+				}})
+			}
 		case "compose-copy-move":
 			// several copy / move operations of sizeable values: every call has its own document with its own marker
 			marker := fmt.Sprintf("doc-%d-", len(calls)) + genString(t, 6)
@@ -260,6 +282,17 @@ func genC20Calls(t *rapid.T, s *c20Shared, n int) []c20Call {
 					defer s.leave(&s.inResolve)
 					return digest(s.handler.ResolveDocument(did))
 				}})
+				// the other long-form spelling of the same DID (initial state without the optional type member), several times:
+				// resolutions of one suffix under different ids are in flight together
+				noType := "did:ion:" + cr.suffixFor(18) + ":" + b64([]byte(refJCS(map[string]interface{}{"delta": cr.Delta, "suffixData": cr.SuffixData})))
+				for _, d := range []string{noType, did, noType} {
+					d := d
+					calls = append(calls, c20Call{kind, func() string {
+						s.enter(&s.inResolve)
+						defer s.leave(&s.inResolve)
+						return digest(s.handler.ResolveDocument(d))
+					}})
+				}
 			case "process":
 				calls = append(calls, c20Call{kind, func() string {
 					s.enter(&s.inResolve)
@@ -708,5 +741,70 @@ func TestC20_VersionProviders(t *testing.T) {
 			}
 		}
 		st.Case(!sorted, fmt.Sprint("verprovider|", times, workers, procs), "registry-version-provider", fmt.Sprintf("goroutines-%d", workers))
+	})
+}
+
+// TestC20_SharedInputs: read-only inputs are shared too. One list of patches, freshly decoded from JSON, is applied to
+// different documents (and validated) by several goroutines that all start at the same moment, so that their first use of
+// the patches coincides; the results are the sequential ones and (under the race detector) nothing is written.
+func TestC20_SharedInputs(t *testing.T) {
+	st := statsFor("C20")
+	defer runtime.GOMAXPROCS(runtime.GOMAXPROCS(0))
+	check(t, "C20", 25, func(t *rapid.T) {
+		procs := rapid.SampledFrom([]int{2, 4, 16}).Draw(t, "gomaxprocs")
+		workers := rapid.SampledFrom([]int{2, 4, 8}).Draw(t, "goroutines")
+		stack := newStack(wideProtocol())
+		runtime.GOMAXPROCS(procs)
+		lists := rapid.IntRange(3, 12).Draw(t, "lists")
+		for l := 0; l < lists; l++ {
+			values, _ := genOpPatches(t, map[string]interface{}{}, true, st)
+			decode := func() []patch.Patch {
+				// decoded the way the parser decodes the patches of a delta: plain JSON decoding into the patch type
+				var lps []patch.Patch
+				if err := json.Unmarshal([]byte(refJCS(values)), &lps); err != nil {
+					t.Fatalf("harness: %v", err)
+				}
+				return lps
+			}
+			docs := make([]map[string]interface{}, workers)
+			want := make([]string, workers)
+			for w := range docs {
+				docs[w] = map[string]interface{}{"alsoKnownAs": []interface{}{fmt.Sprintf("https://inputs.example/%d/%d", l, w)}}
+				res, err := stack.Composer.ApplyPatches(libDoc(docs[w]), decode()) // reference: a private copy of the patches
+				if err != nil {
+					want[w] = "ERR"
+				} else {
+					want[w] = docCanon(res)
+				}
+			}
+			shared := decode() // never used before the goroutines start
+			got := make([]string, workers)
+			var wg sync.WaitGroup
+			start := make(chan struct{})
+			for w := 0; w < workers; w++ {
+				wg.Add(1)
+				go func(w int) {
+					defer wg.Done()
+					<-start
+					for _, lp := range shared {
+						_ = patchvalidator.Validate(lp)
+					}
+					res, err := stack.Composer.ApplyPatches(libDoc(docs[w]), shared)
+					if err != nil {
+						got[w] = "ERR"
+					} else {
+						got[w] = docCanon(res)
+					}
+				}(w)
+			}
+			close(start)
+			awaitWorkers(t, &wg, "C20 shared patch list")
+			for w := range got {
+				if got[w] != want[w] {
+					t.Fatalf("C20 a patch list shared by %d goroutines gives another result than a private copy\n patches %s\n shared  %s\n private %s", workers, refJCS(values), got[w], want[w])
+				}
+			}
+		}
+		st.Case(workers >= 4, fmt.Sprint("shared-inputs|", lists, workers, procs), "shared-inputs", fmt.Sprintf("goroutines-%d", workers))
 	})
 }
